@@ -322,8 +322,11 @@ func genTerm(e *vh.Env, maxDepth int) *term {
 				n = r.Intn(8)
 			}
 			in := t
-			if r.Intn(4) != 0 {
+			if r.Intn(4) != 0 && !(t.kind == "limit" && r.Intn(2) == 0) {
 				in = &term{kind: "cnt", inner: t}
+			}
+			if t.kind == "limit" && r.Intn(3) == 0 {
+				n = r.Intn(3) - 1 // directly nested limits with an unlimited one among them
 			}
 			t = &term{kind: "limit", n: n, inner: in}
 		case 3:
@@ -384,6 +387,14 @@ func TestC43(t *testing.T) {
 		{kind: "cnt", inner: &term{kind: "json", rec: true, rs: []jres{{true, 4321}, {true, 1}, {true, 0}, {true, 1020}, {true, 200}}}},
 		{kind: "limit", n: 3, inner: &term{kind: "json", rec: true, rs: []jres{{true, 90}, {true, 7}, {false, 0}, {true, 5}}}},
 		{kind: "filter", pr: pr{kind: "const", b: false}, inner: &term{kind: "cnt", inner: &term{kind: "src", xs: []int{1, 2, 3, 4}}}},
+		// a limit directly over a limit (no wrapper in between): unlimited inner, tighter inner, tighter outer, unlimited outer
+		{kind: "limit", n: 2, inner: &term{kind: "limit", n: 0, inner: &term{kind: "cnt", inner: &term{kind: "src", xs: []int{1, 2, 3, 4, 5}}}}},
+		{kind: "limit", n: 2, inner: &term{kind: "limit", n: -1, inner: &term{kind: "cnt", inner: &term{kind: "src", xs: []int{1, 2, 3, 4, 5}}}}},
+		{kind: "limit", n: 3, inner: &term{kind: "limit", n: 2, inner: &term{kind: "cnt", inner: &term{kind: "src", xs: []int{1, 2, 3, 4, 5}}}}},
+		{kind: "limit", n: 2, inner: &term{kind: "limit", n: 3, inner: &term{kind: "cnt", inner: &term{kind: "src", xs: []int{1, 2, 3, 4, 5}}}}},
+		{kind: "limit", n: 0, inner: &term{kind: "limit", n: 2, inner: &term{kind: "cnt", inner: &term{kind: "src", xs: []int{1, 2, 3, 4, 5}}}}},
+		{kind: "map", fn: fn{kind: "add", k: 1}, inner: &term{kind: "map", fn: fn{kind: "mul", k: 2}, inner: &term{kind: "cnt", inner: &term{kind: "src", xs: []int{1, 2, 3}}}}},
+		{kind: "filter", pr: pr{kind: "even"}, inner: &term{kind: "filter", pr: pr{kind: "ge", k: 3}, inner: &term{kind: "cnt", inner: &term{kind: "src", xs: []int{1, 2, 3, 4, 5, 6}}}}},
 	}
 	for i := 0; i < n; i++ {
 		var tm *term
